@@ -1019,6 +1019,59 @@ fn body(c: &mut C, thorough: bool) -> Result<(), Violation> {
         }
         c.now = next;
     }
+    // ---- epilogue: long after the faults (more than the 60 s reassembly timeout and neighbour lifetime), on
+    // the loss-free link, fresh fragmented datagrams must get through whatever the lossy phase left behind in
+    // the reassembly buffers
+    let resolvable_now = c.s.iter().all(|s| matches!(s.ll, Addr154::Ext(_)));
+    if c.now <= 600_000_000 && c.tape.draw(3) != 0 {
+        c.now += 62_000_000;
+        poll_side(c, 0)?;
+        poll_side(c, 1)?;
+        let marks = [c.s[0].wire.len(), c.s[1].wire.len()];
+        for i in 0..2 {
+            let to = 1 - i;
+            let k = c.tape.draw(3) as usize;
+            let (h, sport, hop) = c.s[i].udp[k];
+            let dport = c.s[to].udp[c.tape.draw(3) as usize].1;
+            let dst = if resolvable_now { c.s[to].addrs[0] } else { [0xff, 0x02, 0, 0, 0, 0, 0, 0, 0, 0, 0, 0, 0, 0, 0, 1] };
+            let n = c.tape.range(150, 900) as usize;
+            let payload = payload_bytes(c.tape.draw(1 << 30), n);
+            let so = c.s[i].node.sockets.get_mut::<udp::Socket>(h);
+            let ep = IpEndpoint::new(v6(&dst), dport);
+            if guard("udp::send_slice", || so.send_slice(&payload, ep))?.is_ok() {
+                let t = c.now;
+                c.s[i].pend_udp.push(UdpSend { sport, dport, dst, hop, payload, t, oversize: false, hopeless: false });
+                c.stats.inc("6lo.epilogue-sends");
+            }
+        }
+        for _ in 0..400 {
+            poll_side(c, 0)?;
+            poll_side(c, 1)?;
+            let busy = !c.link.is_empty() || c.s.iter().any(|s| s.reasm.is_some() || !s.pend_udp.iter().all(|p| p.oversize || p.t < c.now - 30_000_000));
+            if !busy {
+                break;
+            }
+            c.now = next_time(c, 1_000_000)?;
+        }
+        if c.props.has("C20") {
+            for i in 0..2 {
+                let ports: Vec<u16> = c.s[1 - i].udp.iter().map(|u| u.1).collect();
+                for d in &c.s[i].wire[marks[i]..] {
+                    let Some((ip, u)) = d.pkt.udp() else { continue };
+                    if !ports.contains(&u.dport) || d.ip6.len() > FRAG_BUF {
+                        continue;
+                    }
+                    if d.app_deliveries == 0 {
+                        return Err(v(
+                            "C20.lossless/udp-datagram-not-delivered-long-after-faults-stopped",
+                            "lossless",
+                            format!("62 s after the last fault, on a loss-free link, the UDP datagram node {} transmitted at t={} us ({} > {} ports {} > {} len {}, {} frame(s)) was never delivered to the peer's socket", c.s[i].node.name, d.t, ip.src, ip.dst, u.sport, u.dport, u.payload.len(), d.frame_deliveries.len()),
+                        ));
+                    }
+                }
+            }
+        }
+    }
     c.stats.inc(match c.mode {
         0 => "6lo.mode.reliable",
         1 => "6lo.mode.reorder-dup",
